@@ -422,6 +422,52 @@ def oracle_check(rules: T.Sequence[str], edges: T.Sequence[dict], exists: T.Call
     return res
 
 
+def reach_from(edges: T.Sequence[dict], roots: T.Iterable[str]) -> T.Set[str]:
+    """everything that building `roots` touches (same semantics as the reach clause)"""
+    producers: T.Dict[str, T.List[int]] = collections.defaultdict(list)
+    for k, e in enumerate(edges):
+        for o in edge_all_outs(e):
+            producers[o].append(k)
+    seen = set(roots)
+    todo = list(seen)
+    while todo:
+        x = todo.pop()
+        for k in producers.get(x, []):
+            e = edges[k]
+            for y in edge_all_ins(e) + e['vals'] + edge_all_outs(e):
+                if y not in seen:
+                    seen.add(y)
+                    todo.append(y)
+    return seen
+
+
+PREREQ_ROOTS = ('meson-test-prereq', 'meson-benchmark-prereq')
+
+
+def only_via_prereq(edges: T.Sequence[dict], reqs: T.Sequence[T.Tuple[str, str]]) -> T.List[T.Tuple[str, str]]:
+    """the test/benchmark requirements that are not vacuous: the target is neither built by `all` nor below another
+    input of the prerequisite phony — it is reachable only because the phony lists it (or a sibling output) itself"""
+    out = []
+    from_all = reach_from(edges, ['all'])
+    by_out = {}
+    for e in edges:
+        for o in edge_all_outs(e):
+            by_out.setdefault(o, e)
+    for root in PREREQ_ROOTS:
+        mine = [t for r, t in reqs if r == root]
+        if not mine or root not in by_out:
+            continue
+        direct = edge_all_ins(by_out[root])
+        for t in mine:
+            if t in from_all:
+                continue
+            sib = set(edge_all_outs(by_out[t])) if t in by_out else {t}
+            others = [i for i in direct if i not in sib]
+            if t not in reach_from(edges, others):
+                out.append((root, t))
+    return out
+
+
 CLAUSES = ('wf', 'rules', 'unique', 'acyclic', 'closed', 'reach')
 
 
@@ -503,6 +549,18 @@ FIXED_PROJECTS: T.List[T.Tuple[str, T.Dict[str, str], T.List[str]]] = [
         'meson.build': ("project('ov', 'c')\nexe = executable('tool', 'main.c', build_by_default: false)\n"
                         "meson.override_find_program('tool', exe)\nprog = find_program('tool')\ntest('t', prog)\n"),
         'main.c': 'int main(void) { return 0; }\n'}, []),
+    ('fixed-override-arg-benchmark-subdir', {
+        # the overridden executable reaches a benchmark / a test only as an `args:` element; override made in a subdir
+        # and in a subproject; the helpers are build_by_default: false and used nowhere else
+        'meson.build': ("project('ova', 'c')\nsp = subproject('sp')\nm = executable('m', 'main.c')\nsubdir('d')\n"
+                        "benchmark('b', m, args: [find_program('tool-d'), 'x'])\n"
+                        "test('t', m, args: ['--with', find_program('tool-sp')])\n"),
+        'd/meson.build': ("h = executable('helper d', 'h.c', build_by_default: false)\n"
+                          "meson.override_find_program('tool-d', h)\n"),
+        'subprojects/sp/meson.build': ("project('sp', 'c')\nh = executable('helper-sp', 'h.c', build_by_default: false)\n"
+                                       "meson.override_find_program('tool-sp', h)\n"),
+        'main.c': 'int main(void) { return 0; }\n', 'd/h.c': 'int main(void) { return 0; }\n',
+        'subprojects/sp/h.c': 'int main(void) { return 0; }\n'}, []),
 ]
 
 
@@ -752,6 +810,18 @@ def judge_project(ctx: Ctx, rec: dict, lean_check: T.Optional[str], lean_parse: 
             ctx.tag('oracle:illformed:' + '+'.join(failed))
         else:
             ctx.tag('oracle:wellformed')
+        # vacuity of the test-prerequisite requirements
+        prq = [rt for rt in rec['reqs'] if rt[0] in PREREQ_ROOTS]
+        nv = only_via_prereq(g['edges'], rec['reqs'])
+        ctx.tag('prereq-reqs', len(prq))
+        ctx.tag('prereq-reqs-only-via-prereq-edge', len(nv))
+        ctx.extra['test_prereq_requirements'] = ctx.extra.get('test_prereq_requirements', 0) + len(prq)
+        ctx.extra['test_prereq_requirements_reachable_only_via_prereq_edge'] = \
+            ctx.extra.get('test_prereq_requirements_reachable_only_via_prereq_edge', 0) + len(nv)
+        for ts in (rec.get('spec') or {}).get('tests', []):
+            if ts.get('way'):
+                ctx.tag(f"prereq-way:{ts['way']}:{'benchmark' if ts['benchmark'] else 'test'}:"
+                        f"{'subproject' if ts['project'] else 'main'}")
     if lean_check is None:
         return
     ctx.extra['disagreements_checked'] = ctx.extra.get('disagreements_checked', 0) + 1
